@@ -89,6 +89,15 @@ def finding_matches(entry, pid, signature):
             return False
     if "obligation" in m and signature.get("obligation") != m["obligation"]:
         return False
+    if "checks" in m and signature.get("check") not in m["checks"]:
+        return False
+    if "predicate" in m:
+        from checks.findings_pred import PREDICATES
+        try:
+            if not PREDICATES[m["predicate"]](signature):
+                return False
+        except Exception:  # noqa: BLE001
+            return False
     return True
 
 
